@@ -71,6 +71,28 @@ def check(ctx):
   r2(ctx, f)
   r3(ctx, f)
   r4(ctx)
+  proxy_namespace(ctx)
+
+
+def proxy_namespace(ctx):
+  """The generated forwarders live in the proxy CLASS dict; an attribute stored on the proxy INSTANCE under the same name is found first.  Every instance
+  attribute of _ProxyBase therefore takes one method name away from every interface (the quantifier includes names with leading underscores)."""
+  prog = ctx.prog
+  pb = prog.cls(CORE, '_ProxyBase')
+  why = ('an interface method whose name equals an instance attribute of the proxy is no longer exposed in its blocking form: `client.<name>(...)` reaches the '
+         'attribute value (TypeError: object is not callable) instead of the forwarder, and the dispatcher never sees the call')
+  attrs = {}
+  for m in pb.methods.values():
+    for nd in ast.walk(m.node):
+      if isinstance(nd, ast.Attribute) and isinstance(nd.ctx, ast.Store) and isinstance(nd.value, ast.Name) and nd.value.id == 'self':
+        attrs.setdefault(nd.attr, set()).add(m.name)
+      elif isinstance(nd, ast.Call) and isinstance(nd.func, ast.Name) and nd.func.id == 'setattr' and nd.args and U(nd.args[0]) == 'self':
+        attrs.setdefault('<setattr %s>' % (U(nd.args[1]) if len(nd.args) > 1 else '?'), set()).add(m.name)
+  for a, where in sorted(attrs.items()):
+    mangled = a.startswith('__') and not a.endswith('__')
+    ctx.ob('C20.R1', pb, 'proxy instance attribute %s leaves every interface method name free' % a, mangled,
+           'self.%s (stored in %s) shadows the generated forwarder of an interface method named %s' % (a, sorted(where), a), why)
+  ctx.floor('C20.R1', 'instance attributes of _ProxyBase', len(attrs), 1)
 
 
 def resolve_local_callable(prog, f, expr):
